@@ -32,6 +32,10 @@ pub struct Case {
     pub transit: Vec<u16>,
     /// shutdown requests issued by the timer task: (incarnation, tick number, command)
     pub tick_cmds: Vec<(u8, u8, Cmd)>,
+    /// the timer task is created with tokio::task::spawn_local (it lives in the module's LocalSet, not in the
+    /// runtime's task list) instead of tokio::spawn
+    #[serde(default)]
+    pub local_ticker: bool,
 }
 
 pub struct C09;
@@ -54,6 +58,7 @@ struct Target {
     /// command per message id
     cmds: Vec<Cmd>,
     tick_cmds: Vec<(u8, u8, Cmd)>,
+    local_ticker: bool,
 }
 
 impl Module for Target {
@@ -65,7 +70,7 @@ impl Module for Target {
             self.inc += 1;
             let (inc, period, max) = (self.inc, self.period, self.max_ticks);
             let cmds = self.tick_cmds.clone();
-            current().try_join(tokio::spawn(async move {
+            let ticker = async move {
                 for k in 1..=max {
                     sleep(du(period)).await;
                     net::log("tick", inc, k as i64);
@@ -73,7 +78,12 @@ impl Module for Target {
                         apply(c);
                     }
                 }
-            }));
+            };
+            if self.local_ticker {
+                current().try_join(tokio::task::spawn_local(ticker));
+            } else {
+                current().try_join(tokio::spawn(ticker));
+            }
         }
         net::log("start", self.inc, stage as i64);
         if stage == 1 {
@@ -160,6 +170,7 @@ pub fn run_case(case: &Case) -> Result<(bool, Vec<&'static str>), Failure> {
             max_ticks,
             cmds: cmds.clone(),
             tick_cmds: case.tick_cmds.clone(),
+            local_ticker: case.local_ticker,
         },
     );
     sim.node("d", Driver { sends: sends.clone() });
@@ -351,6 +362,9 @@ pub fn run_case(case: &Case) -> Result<(bool, Vec<&'static str>), Failure> {
     if case.tick_cmds.iter().any(|(_, _, c)| *c != Cmd::Nop) {
         labels.push("shutdown-requested-by-task");
     }
+    if case.local_ticker && max_ticks > 0 {
+        labels.push("timer-task-in-the-local-set");
+    }
     Ok((down_msgs > 0 && old_timer_after_restart && cycles >= 2, labels))
 }
 
@@ -379,7 +393,7 @@ impl Prop for C09 {
     fn plan(tier: Tier) -> Plan {
         Plan {
             shards: tier.pick(4, 16),
-            cases_per_shard: tier.pick(1_500, 10_000),
+            cases_per_shard: tier.pick(1_500, 30_000),
             watchdog: StdDuration::from_secs(tier.pick(300, 3600)),
         }
     }
@@ -399,8 +413,9 @@ impl Prop for C09 {
             0u8..12,
             proptest::collection::vec(0u16..80, 0..n),
             proptest::collection::vec((1u8..5, 1u8..8, hot), 0..3),
+            proptest::bool::weighted(0.3),
         )
-            .prop_map(|(period_ms, max_ticks, direct, via_driver, latency_ms, transit, tick_cmds)| Case {
+            .prop_map(|(period_ms, max_ticks, direct, via_driver, latency_ms, transit, tick_cmds, local_ticker)| Case {
                 period_ms,
                 max_ticks,
                 direct,
@@ -408,6 +423,7 @@ impl Prop for C09 {
                 latency_ms,
                 transit,
                 tick_cmds,
+                local_ticker,
             })
             .boxed()
     }
